@@ -28,6 +28,12 @@ Proof. intros H x t rest. apply parse_print_vector_of_estimates. exact H. Qed.
 Print Assumptions C19_vector_of_estimates_roundtrip.
 
 (* conventions: every documented spelling, the printed forms, numeric codes; malformed text fails *)
+Theorem C19_vector_of_complex_roundtrip (pn : Q -> string) :
+  (forall q rest, stops_number rest -> parse_num (pn q ++ rest) = Some (q, rest)) ->
+  forall x t rest,
+  parse_vec (Q * Q) parse_complex (length (x :: t)) (print_vec (Q * Q) (print_complex pn) (x :: t) ++ rest) = Some (x :: t, rest).
+Proof. intros H x t rest. apply parse_print_vector_of_complex. exact H. Qed.
+Print Assumptions C19_vector_of_complex_roundtrip.
 Theorem C19_basis rest b : ws_or_end rest = true ->
   parse_basis (print_basis b ++ rest) = Some (Some b, rest) /\
   parse_basis ("Linear" ++ rest) = Some (Some Linear, rest) /\ parse_basis ("circ" ++ rest) = Some (Some Circular, rest) /\
